@@ -489,22 +489,50 @@ def png_memory_order(ctx):
     """writer join order and reader slice table of the .p8.png image"""
     model = ctx.model
     w = model.func('pico8.game.formatter.p8png:P8PNGFormatter.to_file')
+    from ..absint.symbody import SymBody, list_contents
     order = None
-    for n in walk_own(w.node):
-        if isinstance(n, ast.Call) and isinstance(n.func, ast.Attribute) and \
-                n.func.attr == 'join' and n.args and \
-                isinstance(n.args[0], ast.Tuple) and len(n.args[0].elts) >= 6:
-            order = []
-            for e in n.args[0].elts:
-                t = ast.unparse(e).replace(' ', '')
-                if t.startswith('game.') and t.endswith('.to_bytes()'):
-                    order.append(t[len('game.'):-len('.to_bytes()')])
-                elif t == 'code_bytes':
-                    order.append('code')
-                elif 'game.version' in t:
-                    order.append('version')
-                else:
-                    order.append('?' + t)
+    sym = SymBody(ctx, w, max_paths=800)
+    try:
+        wpaths = sym.run(w.node.body)
+    except AnalysisError:
+        wpaths = []
+    for p in wpaths:
+        elts = None
+        exprs = []
+        for k, e in enumerate(p.events):
+            for x in e[1:-1]:
+                if isinstance(x, ast.AST):
+                    exprs.append((k, x))
+        for v in p.env.values():
+            exprs.append((len(p.events), v))
+        for (k, x) in exprs:
+            for n in ast.walk(x):
+                if isinstance(n, ast.Call) and \
+                        isinstance(n.func, ast.Attribute) and \
+                        n.func.attr == 'join' and n.args and \
+                        const_str(n.func.value) == b'':
+                    a = n.args[0]
+                    if isinstance(a, (ast.Tuple, ast.List)) and \
+                            len(a.elts) >= 6:
+                        elts = list(a.elts)
+                    elif isinstance(a, ast.Name):
+                        got = list_contents(sym, p, a.id, upto=k)
+                        if got is not None and len(got) >= 6:
+                            elts = got
+        if elts is None:
+            continue
+        order = []
+        for e in elts:
+            t = ast.unparse(e).replace(' ', '')
+            if t.startswith('game.') and t.endswith('.to_bytes()'):
+                order.append(t[len('game.'):-len('.to_bytes()')])
+            elif 'game.version' in t:
+                order.append('version')
+            elif 'get_bytes_from_code' in t or t == 'code_bytes':
+                order.append('code')
+            else:
+                order.append('?' + t[:30])
+        break
     r = model.func('pico8.game.formatter.p8png:get_raw_data_from_p8png_file')
     slices = {}
     for n in walk_own(r.node):
